@@ -191,7 +191,11 @@ def finish(ctx, required_ops, rule, level='exploration', assumptions=(), exhaust
     }
     if exhaustive is not None:
         cov['exhaustive'] = bool(exhaustive)
+    rl = ctx.extra.pop('reached_library_functions', None)
     cov.update(ctx.extra)
+    if rl is not None:
+        cov['reached_library_functions'] = len(rl)
+        cov['reached_library_functions_list'] = rl
     if extra_cov:
         cov.update(extra_cov)
     ev = {'property_id': pid, 'tier': ctx.tier, 'seed': ctx.seed, 'level': level, 'coverage': cov,
